@@ -141,7 +141,14 @@ def run(ctx):
                     try:
                         rg = with_draws(d, lambda: fn(mk_g())) if recorded else fn(mk_g())
                     except Exception as e:
-                        ctx.fail("oracle", "%s(TsGroup with a member without spikes) raised %s" % (name, type(e).__name__), ginp, impl=repr(e))
+                        fc = None
+                        if recorded and ctx.lean and not keeps and isinstance(e, RuntimeError) and "Union of time supports is empty" in str(e):
+                            # lattice-valued recorded draws can make EVERY member a one-instant member (two jittered spikes coincide):
+                            # no member has a support, the rebuilt group has none - the open finding's class in its extreme form, when
+                            # the group model says the same
+                            if ctx.lean.run([mline(d.log)])[0] == "ERR emptyunion":
+                                fc = dict(op=name, group=True, member_count=1, member_lost=True, outside_others=True, impl_equals_model=True)
+                        ctx.fail("oracle", "%s(TsGroup with a member without spikes) raised %s" % (name, type(e).__name__), ginp, impl=repr(e), finding_ctx=fc)
                         continue
                     got = dict(sup=list(zip(*iset_ns(rg.time_support))), members={int(j): ns_arr(rg[j].t) for j in rg.keys()})
                     eq = None
@@ -164,6 +171,9 @@ def run(ctx):
                         ctx.fail("oracle", "%s(TsGroup): keys / counts of the empty and the full member" % name, ginp, impl=got)
                     elif keeps and (iset_ns(rg.time_support) != ([a], [b]) or (cnt[9] > 1 if jk else cnt[9] != 1)):
                         ctx.fail("oracle", "%s(TsGroup): support / count of the single-spike member" % name, ginp, impl=got)
+                    elif keeps and any(len(rg[j]) and iset_ns(rg[j].time_support) != ([a], [b]) for j in rg.keys()):
+                        ctx.fail("oracle", "%s(TsGroup): a member does not carry the kept support (its rate / count grid follow its support)" % name, ginp,
+                                 impl={int(j): iset_ns(rg[j].time_support) for j in rg.keys()})
                     elif not keeps and cnt[9] != 1:
                         # the open finding's class: a member whose new timestamps span no duration has no support of its own
                         fctx = dict(op=name, group=True, member_count=1, member_lost=True, impl_equals_model=eq,
